@@ -7,6 +7,7 @@ import Verif.Model.OTT
           sha = `x<hex>`;   E = `s<thread>` | `r<start second of the new process>`
       output: one `<answer>:<cas>` per request joined by `,` then ` n=<records in used_ott>`;
           answer = auth | deny | drop | pend ; cas = stored | exists | none
+  `t kind=<kind> dtofu=0|1 dcsans=0|1 parses=0|1 …`  (the configured provisioner; its type is `ptypeOf`) or
   `t ty=<type> parses=0|1 jti=x.. nonce=x.. derived=x.. awsvalid=0|1 sha=x..`
       output: `id:<x-hex>` | `reuse` | `err`, then ` key=<x-hex>|none`
 -/
@@ -58,6 +59,13 @@ def ptype? (t : String) : Option PType :=
   | "k8ssa" => some .k8ssa | "acme" => some .acme | "scep" => some .scep
   | _ => none
 
+def pkind? (t : String) : Option PKind :=
+  match t with
+  | "jwk" => some .jwk | "x5c" => some .x5c | "sshpop" => some .sshpop | "nebula" => some .nebula
+  | "oidc" => some .oidc | "azure" => some .azure | "aws" => some .aws | "gcp" => some .gcp
+  | "k8ssa" => some .k8ssa | "acme" => some .acme | "scep" => some .scep
+  | _ => none
+
 def eval (line : String) : Option String := do
   let fs := fields line
   let kv := fs.filterMap fun f =>
@@ -73,7 +81,12 @@ def eval (line : String) : Option String := do
     let s := machine.run (g, rs) evs
     pure (String.intercalate "," (s.2.map outS) ++ s!" n={s.1.store.length}")
   | some "t" =>
-    let ty ← ptype? (← lookup kv "ty")
+    let ty ← match lookup kv "kind" with
+      | some k => do
+        let kind ← pkind? k
+        pure (ptypeOf { kind := kind, disableTrustOnFirstUse := (← bool? (← lookup kv "dtofu")),
+                        disableCustomSANs := (← bool? (← lookup kv "dcsans")) })
+      | none => ptype? (← lookup kv "ty")
     let t : Tok := { parses := (← bool? (← lookup kv "parses")), jti := (← str? (← lookup kv "jti")),
                      nonce := (← str? (← lookup kv "nonce")), derived := (← str? (← lookup kv "derived")),
                      awsValid := (← bool? (← lookup kv "awsvalid")), sha := (← str? (← lookup kv "sha")) }
